@@ -195,3 +195,10 @@ func intrMonitorStop(fr *frame, args []value) value {
 	}
 	return out
 }
+
+// onStore2 records a write performed by a modelled library call on the cell.
+func (m *monitor) onStore2(fr *frame, addr *value, what string) {
+	if d, ok := m.cells[addr]; ok {
+		m.note(fr, what+" write to pre-existing cell "+d, token.NoPos)
+	}
+}
